@@ -4,6 +4,7 @@ import (
 	"fmt"
 	"math/rand/v2"
 	"path/filepath"
+	"sort"
 	"testing"
 
 	"github.com/cockroachdb/pebble/sstable"
@@ -202,10 +203,167 @@ func TestC29(t *testing.T) {
 			}
 		}
 	}
+	// CopySpan over runs of cold data blocks longer than the writer's read-size target
+	// (spec/InternalIter/CopyBatch.tla): tables of a few hundred KiB to a few MiB
+	nBig, nBigCopy, maxBatches := envInt("VERIF_BIGCOPY", 2), 0, 0
+	for bi := 0; bi < nBig; bi++ {
+		prof := bigProfiles[(bi+int(seed))%len(bigProfiles)]
+		tab := GenBigTable(rng, p, s, prof.n)
+		for ci, c := range bigCfgs(bi, int(seed), prof.sizes) {
+			if tier == "quick" && ci >= 3 {
+				break
+			}
+			inFile = 1 << 30 // a file of its own
+			rotate()
+			nb, err := bigCopyScript(rng, c, p, s, tab, tr)
+			if err != nil {
+				fmt.Printf("DRIVER-FAIL bigcopy %s: %v\n", c.Name, err)
+				tr.Emit(Ev{"op": "fail", "err": err.Error()})
+				continue
+			}
+			nTables++
+			nBigCopy += 4
+			nCopy += 4
+			if nb > maxBatches {
+				maxBatches = nb
+			}
+		}
+	}
 	if tr != nil {
 		nEvents += tr.N
 		must(tr.Close())
 	}
-	_ = sstable.TableFormatMax
-	fmt.Printf("DRIVER-DONE traces=%d events=%d tables=%d configs=%d virtparams=%d copyspans=%d\n", nFiles, nEvents, nTables, len(cfgs), nVirt, nCopy)
+	fmt.Printf("DRIVER-DONE traces=%d events=%d tables=%d configs=%d virtparams=%d copyspans=%d bigcopies=%d maxreadbatches=%d\n",
+		nFiles, nEvents, nTables, len(cfgs), nVirt, nCopy, nBigCopy, maxBatches)
+}
+
+// bigProfiles: value sizes (by value id) and entry counts of the big tables: a cold run a
+// little above one read-size target, one of several targets with a single block above the
+// target, many medium blocks, and pairs of blocks that just fit / just do not fit a batch.
+var bigProfiles = []struct {
+	n     int
+	sizes []int
+}{
+	{12, []int{0, 40000, 9000, 70000, 20000, 300, 30000, 15000}},
+	{24, []int{0, 70000, 30000, 9000, 120000, 20000, 45000, 300, 300000}},
+	{44, []int{0, 12000, 14000, 11000, 13000, 200}},
+	{16, []int{0, 130000, 128000, 131000, 126000, 3000}},
+}
+
+// GenBigTable draws n entries with distinct (key, seqnum) and distinct value ids; no spans
+// (CopySpan copies the whole file when the table has range deletions, range keys or value blocks).
+func GenBigTable(rng *rand.Rand, p, s, n int) *Table {
+	r := p * (s + 1)
+	if n > 3*r {
+		n = 3 * r
+	}
+	t := &Table{}
+	seen := map[[2]int]bool{}
+	for len(t.Pts) < n {
+		k, sq := rng.IntN(r), 1+rng.IntN(3)
+		if seen[[2]int{k, sq}] {
+			continue
+		}
+		seen[[2]int{k, sq}] = true
+		t.Pts = append(t.Pts, []int{k, sq, []int{1, 1, 1, 1, 2, 18, 0}[rng.IntN(7)], 0})
+	}
+	sort.Slice(t.Pts, func(i, j int) bool {
+		a, b := t.Pts[i], t.Pts[j]
+		if a[0] != b[0] {
+			return a[0] < b[0]
+		}
+		return a[1] > b[1]
+	})
+	for i, e := range t.Pts {
+		if e[2] != 0 {
+			e[3] = i + 1
+		}
+	}
+	return t
+}
+
+// bigCfgs: uncompressed (the values are highly compressible), no value blocks; the newest
+// columnar format, another columnar format, the newest row format (its writer has a
+// copyDataBlocks of its own), single-level and two-level indexes.
+func bigCfgs(bi, seed int, sizes []int) []WCfg {
+	fs := AllFormats()
+	newest := fs[len(fs)-1]
+	var col []sstable.TableFormat
+	for _, f := range fs {
+		if f >= sstable.TableFormatPebblev5 && f != newest {
+			col = append(col, f)
+		}
+	}
+	var r []WCfg
+	add := func(f sstable.TableFormat, bs, ibs int, filter string) {
+		c := WCfg{Format: f, BlockSize: bs, IndexSize: ibs, Restart: 16, Compress: "none", Filter: filter, UseFilter: filter != "none",
+			NoValBlk: true, Shape: []string{"short", "mixed", "long"}[(bi+seed)%3], ValSizes: sizes}
+		c.Name = fmt.Sprintf("big/%s/bs%d/ibs%d/%s", f, bs, ibs, filter)
+		r = append(r, c)
+	}
+	add(newest, 4096, []int{4096, 64}[(bi+seed)%2], "bloom10")
+	add(col[(bi+seed)%len(col)], []int{32768, 4096}[bi%2], []int{64, 4096}[(bi+seed)%2], "none")
+	add(sstable.TableFormatPebblev4, 4096, 4096, "none")
+	for i, f := range col {
+		if i != (bi+seed)%len(col) {
+			add(f, 4096, []int{4096, 64}[i%2], []string{"none", "fuse8"}[i%2])
+		}
+	}
+	return r
+}
+
+// bigCopyScript writes the table, scans it once, and copies the whole span, an interior
+// span and a random span with a cold cache, and the whole span with some blocks warm.
+// Returns the number of read batches the largest cold run needs (diagnostic).
+func bigCopyScript(rng *rand.Rand, cfg WCfg, p, s int, tab *Table, tr *Trace) (int, error) {
+	x := &Exec{U: NewUniv(p, s, cfg.Shape), VC: Vals{Sizes: cfg.ValSizes}, Cfg: cfg, T: tr}
+	x.reset()
+	defer x.CloseAll()
+	x.Tab = tab
+	data, err := Build(x.U, x.VC, cfg, tab)
+	if err != nil {
+		return 0, err
+	}
+	if err := x.OpenBytes(data); err != nil {
+		return 0, err
+	}
+	batches := 0
+	if l, err := x.R.Layout(); err == nil && len(l.Data) > 0 {
+		last := l.Data[len(l.Data)-1]
+		batches = int((last.Offset+last.Length-l.Data[0].Offset)/(256<<10)) + 1
+	}
+	x.emit(tab.Event(cfg.Name))
+	r := x.U.R()
+	x.Step(Ev{"op": "open", "h": 1, "t": "pt", "lo": 0, "hi": r})
+	for res, i := x.ptOp(1, "first", 0, 0), 0; ; i++ {
+		o := "next"
+		if i == 0 {
+			o = "first"
+		}
+		x.emit(Ev{"op": "it", "h": 1, "o": o, "k": 0, "f": 0, "res": res})
+		if len(res) != 4 || i > len(tab.Pts)+1 {
+			break
+		}
+		res = x.ptOp(1, "next", 0, 0)
+	}
+	x.Step(Ev{"op": "close", "h": 1})
+	var warm []int
+	for k := 0; k < r; k++ {
+		if rng.IntN(4) == 0 {
+			warm = append(warm, k)
+		}
+	}
+	a := 1 + rng.IntN(r/3)
+	b := r - 1 - rng.IntN(r/3)
+	ra := rng.IntN(r)
+	rb := ra + 1 + rng.IntN(r-ra)
+	for _, e := range roundTrip([]Ev{
+		{"op": "copyspan", "a": 0, "b": r, "warm": []int{}},
+		{"op": "copyspan", "a": a, "b": b, "warm": []int{}},
+		{"op": "copyspan", "a": ra, "b": rb, "warm": []int{}},
+		{"op": "copyspan", "a": 0, "b": r, "warm": warm},
+	}) {
+		x.Step(e)
+	}
+	return batches, nil
 }
